@@ -63,11 +63,20 @@ def op_histogram(progs):
     h = {}
 
     def walk(e):
-        if isinstance(e, tuple):
-            key = e[0] if e[0] not in ("bin", "cmp") else e[1]
-            h[key] = h.get(key, 0) + 1
-            for x in e[1:]:
-                walk(x)
+        if isinstance(e, (tuple, list)):
+            if e and e[0] == "blit":
+                h["blit"] = h.get("blit", 0) + 1
+                for member in e[1]:
+                    walk(member[1])
+            elif e and isinstance(e[0], str):
+                key = e[0] if e[0] not in ("bin", "cmp") else e[1]
+                if isinstance(key, str):
+                    h[key] = h.get(key, 0) + 1
+                for x in e[1:]:
+                    walk(x)
+            else:
+                for x in e:
+                    walk(x)
 
     for p in progs:
         for d in p:
@@ -154,6 +163,7 @@ def run(tier, seed, t0, prop=PROP, n_quick=60, n_thorough=600, opts=None, gen=No
         "operator_histogram": op_histogram([it.decls for it in items]),
         "print_assumptions": print_assumptions(props_file),
         "coq_logs": logs[:3],
+        "shards_that_did_not_finish": sum(1 for l_ in logs if "rc=124" in l_[:60]),
     })
     if extra_cov:
         rep.cov.update(extra_cov(items))
